@@ -84,6 +84,20 @@ fn main_step(k: usize, eg: &mut EGraph<T>, hs: &mut Vec<AppliedId>) {
             println!("step5 {a:?} progress={:?}", { let p = eg.progress(); (p.number_of_classes, p.number_of_live_classes, p.sum_of_slots, p.sum_of_symmetries) });
             eg.dump();
         }
+        6 => {
+            // saturation runs with a time limit that is far away (30 s): how long the machine
+            // takes (here: a per-process delay in the hook, standing for load) must not show.
+            let delay = std::time::Duration::from_millis(std::env::var("VERIF_TH_DELAY").ok().and_then(|x| x.parse().ok()).unwrap_or(0));
+            let mk = || -> Vec<Rewrite<T>> { vec![Rewrite::new("grow", "(h ?a ?b)", "(h (g ?a) ?b)"), Rewrite::new("hcomm", "(h ?a ?b)", "(h ?b ?a)")] };
+            let mut eg2: EGraph<T> = EGraph::default();
+            eg2.add_expr(RecExpr::parse("(h (g alpha) (v $x))").unwrap());
+            let rep = run_eqsat(&mut eg2, mk(), 4, 30, move |_| { std::thread::sleep(delay); Ok(()) });
+            println!("step6 run_eqsat iterations={} stop={:?} nodes={} classes={} ids={:?}", rep.iterations, rep.stop_reason, rep.egraph_nodes, rep.egraph_classes, eg2.ids());
+            let mut runner: Runner<T, (), (), String> = Runner::default().with_expr(&RecExpr::parse("(h (g beta) (v $y))").unwrap())
+                .with_iter_limit(3).with_time_limit(std::time::Duration::from_secs(30)).with_hook(move |_| { std::thread::sleep(delay); Ok(()) });
+            let rep = runner.run(&mk());
+            println!("step6 runner iterations={} stop={:?} nodes={} classes={} ids={:?}", rep.iterations, rep.stop_reason, rep.egraph_nodes, rep.egraph_classes, runner.egraph.ids());
+        }
         _ => {}
     }
 }
@@ -129,7 +143,7 @@ fn main() {
         }
     });
     let (mut km, mut kn) = (0, 0);
-    let seq: Vec<char> = if solo { "mmmmmm".chars().collect() } else { sched.chars().collect() };
+    let seq: Vec<char> = if solo { "mmmmmmm".chars().collect() } else { sched.chars().collect() };
     for c in seq {
         if c == 'm' { go_m.send(km).unwrap(); km += 1; } else { go_n.send(kn).unwrap(); kn += 1; }
         done_rx.recv().unwrap();
